@@ -62,6 +62,7 @@ FAMILIES = [
     (r"c10_a4_", "A4", "two-run: expanding leading tabs of reconstruct(use_tabs) gives reconstruct(spaces)", ["front-end/src/lib.rs: From<&FormattingConfig> for ReconstructionSettings", RECON]),
     # ---- C12
     (r"c12_m1_", "M1", "format_multiline_strings == reference (value preserved, terminators = configured, target indentation exact, non-conforming / ignored literals untouched)", [OLF + "/multiline_strings.rs: format_multiline_strings, try_rewrite_string, lines_custom"]),
+    (r"c12_m5_", "M5", "two multi-line literals in one logical line are both re-indented in the same pass (each == reference)", [OLF + "/multiline_strings.rs: format_multiline_strings"]),
     (r"c12_m3_", "M3", "lexer: odd run of >= 3 quotes + line break opens a multi-line literal ending at the first same run, else Unterminated to EOF", [LEXER + ": text_literal"]),
     # ---- C13
     (r"c13_l1_", "L1", "one real lexing step from an arbitrary state: structural contract K-LEX + boundary/kind == independent reference scanner", [LEXER + ": whitespace_and_token, lex_token_with_map and the sub-lexer of the class"]),
@@ -72,10 +73,15 @@ FAMILIES = [
     # ---- C14
     (r"c14_g1_", "G1", "DirectiveTree passes: every non-conditional token in >= 1 pass, passes strictly increasing without conditional directives, one pass without directives, #passes <= #else-branches + 1", ["core/src/defaults/parser/directive_tree.rs: DirectiveTree::parse, passes, PassIter"]),
     # ---- C15
+    (r"c15_a_", "A", "process_cursors (attach) == reference attach: token the cursor belongs to and its position kind/fields", ["core/src/defaults/reconstructor.rs: process_cursors, col_for_token_end_pre_fmt"]),
+    (r"c15_b_", "B", "relocate_cursors from the attach state of a symbolic cursor on a symbolic new layout: within output; same offset inside an unchanged token; beyond end => end; blanks stay in their gap", ["core/src/defaults/reconstructor.rs: relocate_cursors, offset_for_token, ws_len, nonbreaking_ws_len, col_for_token_end_post_fmt"]),
     (r"c15_x_", "X", "cursor attach + re-projection: result within output; inside/at end of unchanged token => same offset in that token; beyond end => end", ["core/src/defaults/reconstructor.rs: process_cursors, relocate_cursors, offset_for_token, ws_len, col_for_token_end_post_fmt"]),
+    # ---- C04
+    (r"c04_cursor_nocontract_", "CUR", "process_cursors + relocate_cursors + reconstruct return (no panic, no overflow, loops bounded) for arbitrary small counters without the stage contracts", ["core/src/defaults/reconstructor.rs: process_cursors, relocate_cursors, col_for_token_end_post_fmt, nonbreaking_ws_len, reconstruct"]),
     # ---- C17
     (r"c17_u0_", "U0", "BOM sniffing == the three byte-order marks", ["encoding_rs: Encoding::for_bom (as used by orchestrator/src/file_formatter.rs: decode_file)"]),
     (r"c17_u1_", "U1", "hand-written UTF-16LE/BE encoders == Unicode code-unit arithmetic for arbitrary scalar values", ["orchestrator/src/file_formatter.rs: encode_utf16, encode_utf16le, encode_utf16be"]),
+    (r"c17_u2_", "U2", "decode_file: the BOM selects the encoding over the configured one, is stripped and remembered; the decoded text is exactly the payload after the BOM", ["orchestrator/src/file_formatter.rs: decode_file", "encoding_rs: Encoding::for_bom, decode_without_bom_handling (UTF-8)"]),
     (r"c17_u3_", "U3", "write(): bytes == BOM ++ encode(text), returned length == bytes written", ["orchestrator/src/file_formatter.rs: write, encode"]),
 ]
 
@@ -83,25 +89,29 @@ FAMILIES = [
 QUICK = set("""
 c01_p1_lowercase_len3 c01_p2_line_comment_len3 c01_p2_line_comment_ideographic_space_last c01_p3_directive_brace_len4
 c01_p5_recon_tokB_soft c01_p5_recon_tokB_hard_ignored_ws2
-c02_h1_break_invariants_all_kind_pairs c02_h2_safety_net_soft c02_h3_words_never_glued_pos1of3 c02_h3_words_never_glued_pos2of3 c02_h4_directive_kind_case_insensitive_len5
+c02_h1_break_invariants_all_kind_pairs c02_h2_safety_net_soft c02_h2_safety_net_ignored_ws1 c02_h3_words_never_glued_pos1of3 c02_h3_words_never_glued_pos2of3 c02_h4_directive_kind_case_insensitive_len5
 c03_f1a_line_comment_result_normal_len3 c03_f1b_line_comment_normal_untouched_len4 c03_f2_directive_fixpoint_len3 c03_f3_keywords_any_case_len4 c03_f4_spacing_fixpoint_3kinds c03_f6_solution_fixpoint
 c06_n2_spacing_noninterference_3kinds c06_n3_solution_overwrites_layout c06_n5_olf_tail_reads_counters_only
 c07_i1_toggle_brace_b1_w3 c07_i1_toggle_slashes_b0_w2 c07_i2_region_marking_3tokens c07_i3_mut_access_guard c07_i3_comment_rule_respects_flag c07_i4_emit_verbatim_ws1 c07_i5_asm_lines_marked
 c08_s1_spacing_zero_or_one_3kinds c08_s2_olf_zeroes_spaces_at_line_start c08_s3_apply_solution_counters c08_s4_eof_newline c08_r1_render_soft_w2_w4
 c09_q1_lf_vs_crlf_soft_w2_w4 c09_q3_counters_crlf_eq_lf_nnb
 c10_a1_settings_to_strings c10_a2_new_soft_w0_w3 c10_a2_new_soft_w2_w4 c10_a2_new_hard_w1_w2 c10_a2_new_hard_w5_w0 c10_a3_linewhitespace_len_arith c10_a3_len_equals_emitted_soft_w2_w4 c10_a3_len_equals_emitted_hard_w1_w3 c10_a4_tabs_vs_spaces_tw2_ci2
+c13_d1_dispatch_table_all_bytes c13_w1_blanks_sIs c13_w1_blanks_ssss c13_v2_scalar_ident_sIs c13_l1_colon_n2 c13_l1_slash_n3 c13_l1_digit_n3 c13_l1_dot_n2 c13_l1_langle_n2 c13_l1_simple_ops_n1 c13_l1_unknown_n1 c13_v1_avx2_eq_ref_len33_off1
+c17_u0_bom_sniffing c17_u1_utf16le_1scalar c17_u1_utf16be_1scalar c17_u3_write_utf8_len3
 """.split())
 
 # obligations shared between properties: (property, harness regex)
 SHARED = [
     ("C01", r"c12_m1_"),          # P4: multi-line string rewriting preserves the non-blank sequence
     ("C02", r"c03_f3_"),          # H4: lower-cased keywords keep their kind
-    ("C03", r"c12_m1_one_line_lf$"),
+    ("C03", r"c12_m1_one_line_lf$"), ("C03", r"c12_m5_"),
     ("C08", r"c03_f1a_"),         # line comments end up without trailing ASCII whitespace
     ("C09", r"c12_m1_"),          # Q2: interior terminators of re-indented literals = configured one
     ("C13", r"c03_f3_"),          # K1: keyword recognition
     ("C13", r"c12_m3_"),          # T2: multi-line literal opener / terminator
-    ("C04", r"."),                # filled in below
+    # C04: every harness checks panics / overflow / unwinding; these run on unrestricted inputs
+    ("C04", r"c13_l1_"), ("C04", r"c13_w1_"), ("C04", r"c14_g1_"), ("C04", r"c12_m1_"), ("C04", r"c12_m3_"),
+    ("C04", r"c01_p2_"), ("C04", r"c01_p3_"), ("C04", r"c07_i1_"), ("C04", r"c17_u1_"),
 ]
 
 PROPERTY_META = {
@@ -150,8 +160,6 @@ def build(hcrate=None):
     # shared obligations
     all_obs = [o for obs in props.values() for o in obs]
     for pid, rx in SHARED:
-        if pid == "C04":
-            continue
         for o in all_obs:
             if re.match(rx, o["harness"].split("::")[1]) and not any(x["harness"] == o["harness"] for x in props.get(pid, [])):
                 o2 = dict(o)
